@@ -75,7 +75,8 @@ static int lib_decode(const char *s, uint64_t *t, unsigned char *imp, size_t *il
 /* decoded objects kept alive while further strings are decoded and other objects are released (several in a row): each must keep
  * its time and imprint and encode back to its string, whatever the size of the context's data-hash recycle pool */
 #define NLIVE 12
-static struct { KSI_PublicationData *pd; uint64_t t; unsigned char imp[80]; size_t il; char str[200]; } live[NLIVE]; static int nlive;
+static struct { KSI_PublicationData *pd; KSI_PublicationRecord *rec; uint64_t t; unsigned char imp[80]; size_t il; char str[200]; } live[NLIVE]; static int nlive;
+static void live_free(int j) { if (live[j].rec) KSI_PublicationRecord_free(live[j].rec); else KSI_PublicationData_free(live[j].pd); }
 static void live_check(const char *when) {
 	int i; for (i = 0; i < nlive; i++) {
 		KSI_Integer *ti = NULL; KSI_DataHash *h = NULL; const unsigned char *p = NULL; size_t n = 0; char *enc = NULL; int bad = 0;
@@ -85,7 +86,7 @@ static void live_check(const char *when) {
 		if (KSI_PublicationData_toBase32(live[i].pd, &enc) != KSI_OK || enc == NULL || strncmp(enc, live[i].str, strlen(live[i].str)) != 0) bad |= 4;
 		KSI_free(enc);
 		vh_eval++;
-		if (bad) { vh_viol("pubstr:live-object-changed", live[i].str, "an object decoded earlier from this string no longer holds its data %s (time %d imprint %d re-encoding %d)", when, bad & 1, (bad >> 1) & 1, (bad >> 2) & 1); KSI_PublicationData_free(live[i].pd); live[i] = live[--nlive]; i--; }
+		if (bad) { vh_viol("pubstr:live-object-changed", live[i].str, "an object decoded earlier from this string no longer holds its data %s (time %d imprint %d re-encoding %d)", when, bad & 1, (bad >> 1) & 1, (bad >> 2) & 1); live_free(i); live[i] = live[--nlive]; i--; }
 		else vh_count("live_objects_rechecked", 1);
 	}
 }
@@ -94,10 +95,22 @@ static void live_step(const char *ref, uint64_t t, const unsigned char *imp, siz
 	if (strlen(ref) >= sizeof live[0].str) return;
 	if (nlive == NLIVE || (nlive > 3 && vh_below(3) == 0)) {
 		/* release 1..5 objects in a row, no allocation in between */
-		k = 1 + (int)vh_below(5); while (k-- > 0 && nlive > 0) { int j = (int)vh_below((uint64_t)nlive); KSI_PublicationData_free(live[j].pd); live[j] = live[--nlive]; }
+		k = 1 + (int)vh_below(5); while (k-- > 0 && nlive > 0) { int j = (int)vh_below((uint64_t)nlive); live_free(j); live[j] = live[--nlive]; }
 		live_check("after releasing other objects");
 	}
 	if (KSI_PublicationData_fromBase32(ctx, ref, &pd) != KSI_OK || !pd) return;
+	live[nlive].rec = NULL;
+	if (vh_below(3) == 0) {
+		/* every third object lives on as the CLONE of a publication record made from the decoded data; the original record is released
+		 * at once (or, half of the time, only after the next decode) */
+		KSI_PublicationRecord *r0 = NULL, *r1 = NULL; KSI_PublicationData *pd1 = NULL;
+		if (KSI_PublicationRecord_new(ctx, &r0) == KSI_OK && KSI_PublicationRecord_setPublishedData(r0, pd) == KSI_OK) {
+			if (KSI_PublicationRecord_clone(r0, &r1) == KSI_OK && r1 && KSI_PublicationRecord_getPublishedData(r1, &pd1) == KSI_OK && pd1) {
+				KSI_PublicationRecord_free(r0);           /* releases pd too */
+				live[nlive].rec = r1; pd = pd1; vh_count("live_objects_that_are_record_clones", 1);
+			} else { KSI_PublicationRecord_free(r1); KSI_PublicationRecord_free(r0); vh_viol("pubstr:record-clone-fails", ref, "KSI_PublicationRecord_clone failed"); return; }
+		} else { KSI_PublicationRecord_free(r0); KSI_PublicationData_free(pd); return; }
+	}
 	live[nlive].pd = pd; live[nlive].t = t; memcpy(live[nlive].imp, imp, il); live[nlive].il = il; strcpy(live[nlive].str, ref); nlive++;
 	live_check("after decoding another string");
 }
@@ -275,7 +288,7 @@ int main(int argc, char **argv) {
 		one_string(t, (int)((i + seed) % NKNOWN));
 	}
 	live_check("at the end of the run");
-	while (nlive > 0) KSI_PublicationData_free(live[--nlive].pd);
+	while (nlive > 0) live_free(--nlive);
 	bad_algorithm_cases();
 	raw_codec(n * 40);
 	KSI_CTX_free(ctx);
